@@ -188,3 +188,43 @@ Proof.
   induction l as [|a r IH]; intros [|i] [|k] f d H; cbn [upd nth]; auto; try congruence.
 Qed.
 
+
+(** ---- dropping line [v0] of [n] lines and appending a line ---- *)
+Lemma scroll_rows {A} (ls : list (list A)) (bl : list A) (n v0 : N) :
+  length ls = N.to_nat (n) -> v0 < n ->
+  forall i, i < n ->
+    nth (N.to_nat i) (firstn (N.to_nat v0) ls ++ skipn (S (N.to_nat v0)) ls ++ [bl]) [] =
+    if i <? v0 then nth (N.to_nat i) ls []
+    else if i <? n - 1 then nth (N.to_nat (i + 1)) ls [] else bl.
+Proof.
+  intros L Hv i Hi. rewrite nth_app3. rewrite firstn_length, skipn_length, L.
+  destruct (N.ltb_spec i v0) as [A0|A0].
+  - destruct (Nat.ltb_spec (N.to_nat i) (Nat.min (N.to_nat v0) (N.to_nat (n)))); [|lia].
+    apply nth_firstn_lt. lia.
+  - destruct (Nat.ltb_spec (N.to_nat i) (Nat.min (N.to_nat v0) (N.to_nat (n)))); [lia|].
+    destruct (N.ltb_spec i (n - 1)) as [B|B].
+    + destruct (Nat.ltb_spec (N.to_nat i) (Nat.min (N.to_nat v0) (N.to_nat (n)) + (N.to_nat (n) - S (N.to_nat v0)))); [|lia].
+      rewrite nth_skipn_add. f_equal. lia.
+    + destruct (Nat.ltb_spec (N.to_nat i) (Nat.min (N.to_nat v0) (N.to_nat (n)) + (N.to_nat (n) - S (N.to_nat v0)))); [lia|].
+      replace (N.to_nat i - Nat.min (N.to_nat v0) (N.to_nat (n)) - (N.to_nat (n) - S (N.to_nat v0)))%nat with 0%nat by lia.
+      reflexivity.
+Qed.
+
+Lemma scroll_length {A} (ls : list (list A)) (bl : list A) (n v0 : N) :
+  length ls = N.to_nat (n) -> v0 < n ->
+  length (firstn (N.to_nat v0) ls ++ skipn (S (N.to_nat v0)) ls ++ [bl]) = N.to_nat (n).
+Proof.
+  intros L Hv. rewrite !app_length, firstn_length, skipn_length, L. cbn [length]. lia.
+Qed.
+
+
+Lemma in_seqN x a n : In x (seqN a n) -> a <= x < a + n.
+Proof.
+  unfold seqN. rewrite in_map_iff. intros (k & <- & Hk). apply in_seq in Hk. lia.
+Qed.
+
+Lemma seqN_cons a n : 1 <= n -> seqN a n = a :: seqN (a + 1) (n - 1).
+Proof.
+  intros H. replace n with (N.succ (n - 1)) at 1 by lia. rewrite seqN_S. f_equal. f_equal. lia.
+Qed.
+
